@@ -1170,6 +1170,16 @@ Section frame_level.
     split; [exact Ht|split; [exact Hreg|split; [auto|split; [exact Ho|exact H]]]].
   Qed.
 
+  (* the tick counter may advance (last_schedule): nothing in the invariant is an upper bound on it *)
+  Lemma OI_tick needtk phi ord q st :
+    OI needtk phi ord q st -> OI needtk phi ord q (st <| p_tick := p_tick st + 1 |>).
+  Proof.
+    intros (Ht & Hreg & Hok & Ho & H).
+    split; [|split; [exact Hreg|split; [exact Hok|split; [exact Ho|exact H]]]].
+    intros Hn. destruct (Ht Hn) as [H0 Hl]. split; cbn; [lia|].
+    intros kk v Hv. specialize (Hl kk v Hv). lia.
+  Qed.
+
   Lemma prelude_core st o : core_eq st (state_transition (pre_update (st <| p_out := [] |>) o)).
   Proof.
     unfold pre_update. cbv zeta.
@@ -1203,7 +1213,12 @@ Section frame_level.
     { destruct (p_panic st3) eqn:Ep.
       - destruct H as (?&?&?&?&_). split; [done|split; [done|split; [done|split; [done|]]]]. left. by rewrite Ep.
       - eapply flush_inv; eauto. }
-    eapply OI_core; [|exact H']. unfold last_schedule. core_tac.
+    unfold last_schedule.
+    set (st4 := match p_panic st3 with Some _ => st3 | None => flush st3 end) in *.
+    change (OI needtk phi ord false
+              ((st4 <| a_ready := a_ready st4 ++ a_events st4 |> <| a_events := [] |>)
+                 <| p_tick := p_tick (st4 <| a_ready := a_ready st4 ++ a_events st4 |> <| a_events := [] |>) + 1 |>)).
+    apply OI_tick. eapply OI_core; [|exact H']. core_tac.
   Qed.
 
   (* phases of a whole frame *)
